@@ -34,7 +34,7 @@ AXES = {
     'dtype_amps': ['float64', 'float32'], 'dtype_templates': ['float32', 'float64'], 'dtype_feat': ['float32', 'float64'],
 }
 RULE = ('Each case = one generated dataset directory (configuration vector over %d axes: %s) + random '
-        'contents, loaded with the real load_model; every listed public attribute is compared with the '
+        'contents, loaded with the real load_model (params path given as str / Path / through a symlink / relative to the working directory; directory names with spaces and non-ASCII characters); every listed public attribute is compared with the '
         'DatasetSpec (the harness wrote the bytes) and the directory is content-hashed before/after. '
         'Configurations: an all-pairs covering set (every pair of axis values forced once, rest random) '
         'plus seeded random vectors, plus rejection cases (one inversion in the spike times at the '
@@ -164,10 +164,23 @@ def run_case(case, ctx):
                     'raw_' + o['raw']))
     ctx.sample({'opts': o, 'reject': case.get('reject')}, every=53)
     feats = {'names': o['names'], 'clusters': o['clusters']}
-    d = scratch_dir('c04_')
+    d0 = scratch_dir('c04_')
+    import os
+    from pathlib import Path
+    form = case['seed'][2] % 5
+    d = os.path.join(d0, ['ds', 'my data set', 'dät-ä (1)', 'ds', 'ds'][form])      # spaces / non-ASCII / brackets in the path
     mon = monitors.CURRENT
+    cwd0 = os.getcwd()
     try:
         params = spec.write(d)
+        if form == 3:                       # through a symlink to the dataset directory
+            os.symlink(d, os.path.join(d0, 'link'))
+            params = os.path.join(d0, 'link', 'params.py')
+        elif form == 4:                     # relative to the current working directory
+            os.chdir(d)
+            params = 'params.py'
+        else:
+            params = [str(params), Path(params), str(params)][form]
         before = snapshot(d)
         if mon.fs:
             mon.fs.watch(d)
@@ -227,12 +240,13 @@ def run_case(case, ctx):
             if f not in allowed:
                 ctx.violation('unexpected_file_created', case, 'loading created %s' % f, {'file': f})
         if 'spike_clusters.npy' in created:
-            got = np.load(str(d) + '/spike_clusters.npy').squeeze()
+            got = np.load(os.path.join(d, 'spike_clusters.npy')).squeeze()
             dd = same(got.astype(np.int64), spec.spike_templates.astype(np.int64), dtype=False)
             if dd:
                 ctx.violation('cluster_copy_wrong', case, 'created spike_clusters.npy: ' + dd)
     finally:
-        shutil.rmtree(d, ignore_errors=True)
+        os.chdir(cwd0)
+        shutil.rmtree(d0, ignore_errors=True)
 
 
 def _cmp(ctx, case, feats, name, got, exp, **kw):
